@@ -99,6 +99,10 @@ class SyncWorker(base.Worker):
                     if listener == self.PIPE[0]:
                         continue
 
+                    # the wait above (and any connection handled before
+                    # this one) already used up part of the timeout
+                    self.notify()
+
                     try:
                         self.accept(listener)
                     except OSError as e:
